@@ -485,8 +485,8 @@ impl Prop for C16 {
             let fixed: Vec<Case> = NEAR_MISSES.iter().map(|s| Case::Spelling(s.to_string())).chain(CHARCODE_BODIES.iter().map(|b| Case::Spelling(format!("0'{b}")))).collect();
             d.run_list("spelling", fixed, 5000, &mk_penv, &check);
         }
-        d.run("spelling", 0, cfg.share(cfg.tier.pick(100_000, 10_000_000)), 5000, spelling_strategy(), &mk_penv, &check);
-        d.run("number", 1, cfg.share(cfg.tier.pick(100_000, 10_000_000)), 5000, number_strategy(), &mk_penv, &check);
+        d.run("spelling", 0, cfg.share(cfg.tier.pick(60_000, 6_000_000)), 5000, spelling_strategy(), &mk_penv, &check);
+        d.run("number", 1, cfg.share(cfg.tier.pick(60_000, 6_000_000)), 5000, number_strategy(), &mk_penv, &check);
         drain_tolerated(&mut d.res);
         d.finish()
     }
